@@ -104,7 +104,7 @@ def main():
         ],
         "checks": checks,
         "not_applicable": na,
-        "notes": "See DESIGN.md. Exit 2 from a check means an infrastructure problem (no verdict).",
+        "notes": "See DESIGN.md. Exit 2 from a check means an infrastructure problem (no verdict). `bin/check <id> selftest` runs the quick tier on traces in which recorded results were corrupted and demands that each corruption is rejected (no evidence written). Seeded changes and which check catches each: seeded/ and DESIGN.md section 10; genuine defects found and repaired: known_findings.json and DESIGN.md section 5.",
     }
     json.dump(m, open(os.path.join(V, "MANIFEST.json"), "w"), indent=1)
 
